@@ -83,7 +83,7 @@ def run(ctx, replay=None):
     out, st = ctx.model_check(genmod, genmod if q else genmod + "_thorough", env={"OUT": gen}, workers=1, timeout=3000)
     counts = [int(x) for x in out.split('<<"COUNTS", ')[1].split(">>")[0].split(", ")]
     nq, nm, nbad = counts
-    variants = [("meta", 0), ("odd", 10800)] if q else [("plain", 0), ("meta", 0), ("odd", 10800), ("meta", -34200)]
+    variants = [("meta", 0), ("odd", 10800), ("empty", 0)] if q else [("plain", 0), ("meta", 0), ("odd", 10800), ("meta", -34200), ("empty", 3600)]
     if proto == "card":
         variants = [(c, 0) for c in dict.fromkeys(c for c, _ in variants)]
     # large universes are judged in chunks (each judge process reads its chunk's cases and observations only)
